@@ -496,8 +496,12 @@ pub fn rejoin_heard(ctx: &mut Ctx) {
 pub fn rejoin_in_rotation(ctx: &mut Ctx) {
     rejoin(ctx, 2)
 }
+/// C09: ROUTER only, judged for label and routability of the rejoined peer
+pub fn rejoin_routable(ctx: &mut Ctx) {
+    rejoin(ctx, 3)
+}
 fn rejoin(ctx: &mut Ctx, judge: u8) {
-    let kind = if judge == 2 { Kind::Dealer } else { [Kind::Router, Kind::Dealer, Kind::Rep, Kind::Pull, Kind::Xpub, Kind::Sub][(ctx.idx % 6) as usize] };
+    let kind = if judge == 2 { Kind::Dealer } else if judge == 3 { Kind::Router } else { [Kind::Router, Kind::Dealer, Kind::Rep, Kind::Pull, Kind::Xpub, Kind::Sub][(ctx.idx % 6) as usize] };
     let timing = (ctx.idx / 6) % 4; // when the second connection is opened
     // how the first connection ends: orderly close, cut inside a message, reset - or not at all: it
     // stays open and idle (a half-open connection, or a second client configured with the same
@@ -628,6 +632,52 @@ fn rejoin(ctx: &mut Ctx, judge: u8) {
             }
         }
         drain(&mut sock, kind, &dummy, false).await;
+        // ... and it stays that way: once more after further recv calls have had every occasion to
+        // process what is left of the old connection (a late "stream ended" report, for instance)
+        drain(&mut sock, kind, &dummy, false).await;
+        let _ = p2.send_msg(&msg(8)).await;
+        let mut got2 = false;
+        for _ in 0..20 {
+            match rt::future::or_idle(sock.recv()).await {
+                Some(Ok(m)) => {
+                    let f = from_zmq(&m);
+                    if kind == Kind::Router && f.first().map(|l| &l[..]) != Some(&b"same-id"[..]) {
+                        o2.borrow_mut().1.push(("rejoined_peer_label_wrong", format!("ROUTER (rejoin timing {timing}): a message of the rejoined peer is labelled {} instead of the identity it announced", world::hex(f.first().map(|l| &l[..]).unwrap_or(&[])))));
+                    }
+                    let hit = tag_of(&f) == Some((1, 8));
+                    if kind == Kind::Rep {
+                        let _ = sock.send(to_zmq(&[b"r2".to_vec()])).await;
+                    }
+                    if hit {
+                        got2 = true;
+                        break;
+                    }
+                }
+                Some(Err(_)) => rt::task::yield_now().await,
+                None => break,
+            }
+        }
+        if !got2 {
+            o2.borrow_mut().1.push(("rejoined_peer_not_heard", format!("{} (first connection ended by {}, rejoin timing {timing}): after further recv calls, a second message on the new connection of the rejoined peer was not delivered", kind.name(), ["close", "cut inside a message", "reset", "nothing (it stays open and idle)"][how as usize])));
+        }
+        if kind.has_send() && kind != Kind::Rep {
+            let before = p2.inbound().messages().len();
+            let ok = match kind {
+                Kind::Router => sock.send(to_zmq(&[b"same-id".to_vec(), b"again".to_vec()])).await.is_ok(),
+                _ => {
+                    let mut any = false;
+                    for _ in 0..3 {
+                        any |= sock.send(to_zmq(&[b"again".to_vec()])).await.is_ok();
+                    }
+                    any
+                }
+            };
+            rt::task::idle().await;
+            if !ok || p2.inbound().messages().len() == before {
+                o2.borrow_mut().1.push(("rejoined_peer_not_reachable", format!("{} (rejoin timing {timing}): after further recv calls nothing could be sent to the rejoined peer any more (send ok: {ok}, messages on its connection before/after: {before}/{})", kind.name(), p2.inbound().messages().len())));
+            }
+        }
+        drain(&mut sock, kind, &dummy, false).await;
         o2.borrow_mut().0 = true;
         world::park().await;
         drop(sock);
@@ -641,7 +691,7 @@ fn rejoin(ctx: &mut Ctx, judge: u8) {
     ctx.check_panics();
     let o = out.borrow();
     for (c, d) in o.1.clone() {
-        if judge == 1 && c != "rejoined_peer_not_heard" || judge == 2 && c != "rejoined_peer_not_reachable" {
+        if judge == 1 && c != "rejoined_peer_not_heard" || judge == 2 && c != "rejoined_peer_not_reachable" || judge == 3 && !matches!(c, "rejoined_peer_not_reachable" | "rejoined_peer_label_wrong") {
             continue;
         }
         ctx.violation(&format!("{c}:{}", kind.name()), d);
